@@ -111,6 +111,7 @@ def sched3(prog: int, p0: int, a0: int, v0: int, t0: str, p1: int, a1: int, v1: 
 
 
 NPOS = 12
+K3_PROGS = (1, 2, 3, 9)   # K = 3 in the thorough tier: the programs with await points / waits
 HARNESSES = {'sched1': sched1, 'sched2': sched2, 'sched3': sched3}
 
 
@@ -122,9 +123,11 @@ def shards(tier):
                 out.append(dict(name=f'sched2/prog={prog},a0={a0}', harness='sched2', fixed=dict(prog=prog, a0=a0), budget_s=200))
         else:
             for a0 in range(NACT):
-                for a1 in range(NACT):
-                    out.append(dict(name=f'sched3/prog={prog},a0={a0},a1={a1}', harness='sched3',
-                                    fixed=dict(prog=prog, a0=a0, a1=a1), budget_s=1500))
+                out.append(dict(name=f'sched2/prog={prog},a0={a0}', harness='sched2', fixed=dict(prog=prog, a0=a0), budget_s=600))
+                if prog in K3_PROGS:
+                    for a1 in range(NACT):
+                        out.append(dict(name=f'sched3/prog={prog},a0={a0},a1={a1}', harness='sched3',
+                                        fixed=dict(prog=prog, a0=a0, a1=a1), budget_s=1500))
     return out
 
 
@@ -184,7 +187,7 @@ BOUNDS = {
     'quick': dict(requests='K = 2', actions=sched.ACT_NAMES, positions=f'every gap between loop callbacks/idle ticks 0..{NPOS} + after termination',
                   programs='P0..P10 (sync, async with 1-2 await points, waits, sync and async failure, Kill command, unsuccessful result, refused FINISHED entry, 2 workchains)',
                   data='resume values int (unbounded), kill/pause texts str len <= 2'),
-    'thorough': dict(requests='K = 3', actions=sched.ACT_NAMES, positions=f'0..{NPOS} + after termination', programs='P0..P10',
+    'thorough': dict(requests='K = 2 for all programs, K = 3 for P1 P2 P3 P9', actions=sched.ACT_NAMES, positions=f'0..{NPOS} + after termination', programs='P0..P10',
                      data='int unbounded, str len <= 1'),
 }
 OUTSIDE = ['more than K requests', 'hooks that raise (that is C03)', 'requests issued from listener callbacks (covered by C04/C02 harnesses)',
